@@ -409,7 +409,8 @@ theorem check_stops_iff_executing (s : St) (k : Nat) (hinv : Inv s) (hidle : s.c
     made of the group's single-step actions and check steps, with no check left in flight. -/
 theorem explore_sound : ∀ (fuel : Nat) (s : St) (singles : List Step) (k : Nat) (s' : St),
     s' ∈ explore fuel s singles k →
-    ∃ steps, s' = runSteps s steps ∧ s'.chk = .idle ∧ (∀ st ∈ steps, st = .chk ∨ st ∈ singles) := by
+    ∃ steps, s' = runSteps s steps ∧ s'.chk = .idle ∧ (∀ st ∈ steps, st = .chk ∨ st ∈ singles) ∧
+      (0 < k → s.counters.length ≠ 0 → Step.chk ∈ steps) := by
   intro fuel
   induction fuel with
   | zero => intro s singles k s' h; simp [explore] at h
@@ -422,15 +423,16 @@ theorem explore_sound : ∀ (fuel : Nat) (s : St) (singles : List Step) (k : Nat
         simp only [List.mem_singleton] at h
         subst h
         simp only [Bool.and_eq_true, decide_eq_true_eq] at hc
-        exact ⟨[], rfl, hc.1.2, by simp⟩
+        exact ⟨[], rfl, hc.1.2, by simp, by intro hk; omega⟩
       · simp at h
     · obtain ⟨i, _, hi⟩ := h
       cases hs : singles[i]? with
       | none => simp [hs] at hi
       | some st =>
         simp only [hs] at hi
-        obtain ⟨steps, h1, h2, h3⟩ := ih _ _ _ _ hi
-        refine ⟨st :: steps, by simpa [runSteps] using h1, h2, ?_⟩
+        obtain ⟨steps, h1, h2, h3, h4⟩ := ih _ _ _ _ hi
+        refine ⟨st :: steps, by simpa [runSteps] using h1, h2, ?_, by
+          intro hk hn; exact List.mem_cons_of_mem _ (h4 hk (by rw [len_step]; exact hn))⟩
         have hst : st ∈ singles := List.mem_of_getElem? hs
         have hsub : ∀ (l : List Step) (j : Nat) (x : Step), x ∈ removeAt l j → x ∈ l := by
           intro l
@@ -453,21 +455,23 @@ theorem explore_sound : ∀ (fuel : Nat) (s : St) (singles : List Step) (k : Nat
           · exact Or.inl h
           · exact Or.inr (hsub _ _ _ h)
     · split at h
-      · obtain ⟨steps, h1, h2, h3⟩ := ih _ _ _ _ h
+      · obtain ⟨steps, h1, h2, h3, _⟩ := ih _ _ _ _ h
         exact ⟨.chk :: steps, by simpa [runSteps, step] using h1, h2, by
           intro x hx; simp only [List.mem_cons] at hx
           rcases hx with rfl | hx
           · exact Or.inl rfl
-          · exact h3 x hx⟩
+          · exact h3 x hx, by intro _ _; simp⟩
       · split at h
         · split at h
-          · exact ih _ _ _ _ h
-          · obtain ⟨steps, h1, h2, h3⟩ := ih _ _ _ _ h
+          · rename_i hz
+            obtain ⟨steps, h1, h2, h3, _⟩ := ih _ _ _ _ h
+            exact ⟨steps, h1, h2, h3, by intro _ hn; exact absurd hz hn⟩
+          · obtain ⟨steps, h1, h2, h3, _⟩ := ih _ _ _ _ h
             exact ⟨.chk :: steps, by simpa [runSteps, step] using h1, h2, by
               intro x hx; simp only [List.mem_cons] at hx
               rcases hx with rfl | hx
               · exact Or.inl rfl
-              · exact h3 x hx⟩
+              · exact h3 x hx, by intro _ _; simp⟩
         · simp at h
 
 /-- what the monitor accepts for a concurrent group is the outcome of some interleaving of the
@@ -476,13 +480,116 @@ theorem explore_sound : ∀ (fuel : Nat) (s : St) (singles : List Step) (k : Nat
 theorem groupOutcomes_sound (s : St) (acts : List Act) (s' : St) (h : s' ∈ groupOutcomes s acts) :
     ∃ steps, s' = runSteps s steps ∧ s'.chk = .idle := by
   simp only [groupOutcomes, List.mem_eraseDups] at h
-  obtain ⟨steps, h1, h2, _⟩ := explore_sound _ _ _ _ _ h
+  obtain ⟨steps, h1, h2, _, _⟩ := explore_sound _ _ _ _ _ h
   exact ⟨steps, h1, h2⟩
 
 theorem groupOutcomes_inv (s : St) (acts : List Act) (s' : St) (hinv : Inv s)
     (h : s' ∈ groupOutcomes s acts) : Inv s' := by
   obtain ⟨steps, rfl, _⟩ := groupOutcomes_sound s acts s' h
   exact inv_runSteps_from hinv steps
+
+/-! ## the monitor's property predicate holds of every quiescent check of the model -/
+
+theorem chkOnly_frame (steps : List Step) (hall : ∀ st ∈ steps, st = Step.chk) (s : St) :
+    (runSteps s steps).counters = s.counters ∧ (runSteps s steps).workers = s.workers := by
+  induction steps generalizing s with
+  | nil => simp [runSteps]
+  | cons st rest ih =>
+    have : st = .chk := hall st (by simp)
+    subst this
+    obtain ⟨a, b⟩ := ih (fun x hx => hall x (by simp [hx])) (step s .chk)
+    simp only [runSteps, List.foldl_cons] at a b ⊢
+    refine ⟨by rw [a]; exact counters_chkStep s, ?_⟩
+    rw [b]
+    simp only [step, chkStep]
+    split
+    · split <;> rfl
+    · split
+      · rfl
+      · split <;> rfl
+    · simp only [doStop]; split <;> rfl
+    · simp only [doResume]; split
+      · rfl
+      · exact (startWorkers_spec _ _).2.1
+
+theorem chkOnly_noproto (steps : List Step) (hall : ∀ st ∈ steps, st = Step.chk) (s : St)
+    (hn : s.counters.length = 0) (hidle : s.chk = .idle) : runSteps s steps = s := by
+  induction steps with
+  | nil => rfl
+  | cons st rest ih =>
+    have : st = .chk := hall st (by simp)
+    subst this
+    have e : step s .chk = s := by simp [step, chkStep, hidle, hn]
+    simp only [runSteps, List.foldl_cons, e]
+    exact ih (fun x hx => hall x (by simp [hx]))
+
+/-- C45 monitor tie: for every state the model can be in (any schedule before), every outcome
+    the model allows for a lone `checkProtocols` call satisfies the property predicate
+    `quiescentCheckOk` that the monitor evaluates on the implementation's observation. Together
+    with `groupOutcomes_sound`/`groupOutcomes_inv` (what the monitor accepts is a real schedule's
+    outcome and keeps the invariant) this is "the monitor accepts every model run". -/
+theorem quiescent_check_ok (s : St) (hinv : Inv s) (hidle : s.chk = .idle) (s' : St)
+    (h : s' ∈ groupOutcomes s [.check]) :
+    quiescentCheckOk s.counters.length s.workers (view s') = true := by
+  simp only [groupOutcomes, List.mem_eraseDups] at h
+  obtain ⟨steps, h1, h2, h3, h4⟩ := explore_sound _ _ _ _ _ h
+  have hall : ∀ st ∈ steps, st = Step.chk := by
+    intro st hst; rcases h3 st hst with h | h
+    · exact h
+    · simp [Act.single?] at h
+  have hinv' : Inv s' := by rw [h1]; exact inv_runSteps_from hinv steps
+  obtain ⟨hc, hwk⟩ := chkOnly_frame steps hall s
+  rw [← h1] at hc hwk
+  have hprefix : ∀ k, (runSteps s (steps.take k)).counters = s.counters := fun k =>
+    (chkOnly_frame (steps.take k) (fun st hst => hall st (List.mem_of_mem_take hst)) s).1
+  by_cases hn : s.counters.length = 0
+  · have e : s' = s := by rw [h1]; exact chkOnly_noproto steps hall s hn hidle
+    subst e
+    simp only [quiescentCheckOk, view, hn]
+    cases hw : s'.working
+    · have := hinv.stoppedClear hw; simp [hinv.liveEq, this]
+    · have := hinv.workingAll hw; simp [hinv.liveEq, this]
+  · have hmem : Step.chk ∈ steps := h4 (by simp) hn
+    have hend : (runSteps s steps).chk = .idle := by rw [← h1]; exact h2
+    by_cases hex : s.counters.any (· ≠ 0) = true
+    · -- some latch is executing
+      obtain ⟨x, hx, hx0⟩ := List.any_eq_true.1 hex
+      obtain ⟨i, hi, rfl⟩ := List.mem_iff_getElem.1 hx
+      have hci : ctr s i ≠ 0 := by simpa [ctr, hi] using hx0
+      obtain ⟨hw, hl⟩ := no_resume_while_running i s steps hinv hidle hi
+        (by intro k _; unfold ctr; rw [hprefix k]; exact hci) hmem hend
+      rw [← h1] at hw hl
+      have hs : s'.stops = [] := by rw [← hinv'.liveEq]; exact hl
+      have hany : (view s').flags.any id = true := by
+        simp only [view]; rw [hc]; simpa using hex
+      have hv1 : (view s').working = false := hw
+      have hv2 : (view s').active = 0 := by simp [view, hl]
+      have hv3 : (view s').stops = 0 := by simp [view, hs]
+      simp only [quiescentCheckOk, hany, hv1, hv2, hv3]
+      simp
+    · -- no latch is executing
+      have hz : ∀ j, ctr s j = 0 := by
+        intro j
+        simp only [ctr, List.getD_eq_getElem?_getD]
+        cases hj : s.counters[j]? with
+        | none => rfl
+        | some x =>
+          have hx := List.mem_of_getElem? hj
+          simp only [Option.getD_some]
+          exact Decidable.byContradiction fun hne =>
+            hex (List.any_eq_true.2 ⟨x, hx, by simpa using hne⟩)
+      obtain ⟨hw, hl⟩ := resumes_when_idle s steps hinv hidle (by omega)
+        (by intro k _ j; unfold ctr; rw [hprefix k]; exact hz j) hmem hend
+      rw [← h1] at hw hl
+      have hany : (view s').flags.any id = false := by
+        simp only [view]; rw [hc]
+        simpa using hex
+      have hst : s'.stops.length = s'.workers := by rw [← hinv'.liveEq]; exact hl
+      have hv1 : (view s').working = true := hw
+      have hv2 : (view s').active = s.workers := by simp [view, hl, hwk]
+      have hv3 : (view s').stops = s.workers := by simp [view, hst, hwk]
+      simp only [quiescentCheckOk, hany, hv1, hv2, hv3]
+      simp
 
 /-- non-vacuity: 2 latches, 2 workers; latch 1 locked twice and unlocked once is still executing,
     a check stops both workers; after the second unlock the next check resumes exactly two. -/
